@@ -380,8 +380,11 @@ func (c *ClientConn) maybeCachePrepared(request Request, raw *frame.RawFrame) {
 func (c *ClientConn) Closing(err error) {
 	c.closingMu.Lock()
 	c.closing = true
-	c.pending.closing(err)
 	c.closingMu.Unlock()
+	// The lock must not be held while notifying the pending requests: a notified request may be retried on another
+	// connection that is closing at the same time, and that connection's `Closing()` may in turn be waiting to retry
+	// a request on this one. Once `closing` is set no new request can be added, so every pending request is visited.
+	c.pending.closing(err)
 }
 
 func (c *ClientConn) addToPending(request Request) (int16, error) {
